@@ -76,7 +76,7 @@ func newHist(e *ev.Env, c *ev.Case, cfg cfgT, kinds []string, tag string) *hist 
 		ErrorHandler:    quietErrorHandler,
 		KeyGenerator: func() string {
 			h.nid++
-			id := styledID(cfg.IDs, h.nid, h.tag)
+			id := sizedID(cfg.IDs, h.nid, h.tag, cfg.IDLen)
 			h.w.issue(id)
 			return id
 		},
@@ -90,7 +90,15 @@ func newHist(e *ev.Env, c *ev.Case, cfg cfgT, kinds []string, tag string) *hist 
 			conf.Storage, h.sv = h.vs, h.vs
 		}
 	}
-	mw, store := fsess.NewWithStore(conf)
+	var mw fiber.Handler
+	var store *fsess.Store
+	if cfg.Ready {
+		// a store of its own (its timeouts, storage, key lookup), handed to the middleware as is
+		store = fsess.NewStore(conf)
+		mw, _ = fsess.NewWithStore(fsess.Config{Store: store, ErrorHandler: quietErrorHandler})
+	} else {
+		mw, store = fsess.NewWithStore(conf)
+	}
 	store.RegisterType(HKey{}) // custom key type, registered the documented way
 	h.store = store
 	app := fiber.New()
@@ -699,17 +707,17 @@ func (h *hist) genOps(r *gen.Rand, ci int, mw bool, presented string, n int) []o
 	cl := h.clients[ci]
 	var ops []op
 	held, destroyed, changed := true, false, false
+	_ = changed // kept for readability of the script state; lookups after an id change are generated too
 	val := func() string { cl.seq++; return mkVal(ci, cl.seq) }
 	for len(ops) < n {
 		if !held {
 			switch r.PickW(5, 2, 1) {
 			case 0:
-				if !changed {
-					ops = append(ops, op{K: "reget"})
-					held = true
-					continue
-				}
-				fallthrough
+				// also after Regenerate / Reset / Destroy: whichever session the second lookup of
+				// the request finds must be right
+				ops = append(ops, op{K: "reget"})
+				held, destroyed = true, false
+				continue
 			case 1:
 				o := op{K: "byid", Tgt: h.ownOrDead(r, ci, presented)}
 				if r.Chance(1, 2) {
@@ -903,6 +911,13 @@ func runGenerated(e *ev.Env, c *ev.Case) {
 	if xr.Chance(3, 5) {
 		cfg.IDs = gen.Pick(xr, idStyles)
 	}
+	if xr.Chance(1, 2) {
+		cfg.IDLen = gen.Pick(xr, idLengths)
+	}
+	if xr.Chance(1, 3) {
+		cfg.Ready = true // New(Config{Store: store}): the store's own timeouts count
+		e.Stat("histories-middleware-around-ready-made-store", 1)
+	}
 	if cfg.VStore && xr.Chance(1, 3) {
 		cfg.Retain = true // a storage that keeps the slices it is given
 		e.Stat("histories-retaining-storage", 1)
@@ -946,7 +961,10 @@ func runGenerated(e *ev.Env, c *ev.Case) {
 			cl := h.clients[ci]
 			rq.Outer, rq.MW = true, true
 			rq.Pre = genSimpleOps(xr, cl, ci, xr.Range(0, 2), false)
-			if xr.Chance(1, 3) {
+			if xr.Chance(1, 5) {
+				rq.Pre = append(rq.Pre, op{K: "regen"}) // the middleware's lookup comes second
+			}
+			if xr.Chance(1, 3) || (len(rq.Pre) > 0 && rq.Pre[len(rq.Pre)-1].K == "regen" && xr.Chance(2, 3)) {
 				rq.Pre = append(rq.Pre, op{K: "save"})
 			}
 			rq.Ops = genSimpleOps(xr, cl, ci, xr.Range(0, 3), true)
